@@ -146,6 +146,11 @@ def run(ctx):
              ("aarch64", "a64fx", ["ld1w {z1.s}, p0/z, [x0, z1.s, uxtw #2]", "ld1w {z2.s}, p0/z, [x1, x4, lsl #2]", "fadd z3.s, z3.s, z2.s", "incw x4", "b.first .L4"]),
              ("x86", "zen3", ["vmovsd (%rax,%rbx,8), %xmm1", "vaddsd %xmm1, %xmm0, %xmm0", "vmovsd tab(,%rbx,8), %xmm2", "vaddsd %xmm2, %xmm0, %xmm0", "addq $1, %rbx"]),
              ("x86", "zen3", ["movq (,%rcx,8), %rcx", "movq 8(%rax,%rcx,8), %rdx", "addq %rdx, %rsi", "addq $8, %rax"]),
+             # one mnemonic matched by a specific form AND by a more general fallback with other data (m1/v2: ldr *,[x,imd] before ldr *,[x,*,*,*];
+             # a72: ldr q scale 1 before scale *): the first form in FILE order applies, whichever line of the body is looked up first
+             ("aarch64", "m1", ["ldr x1, [x1]", "ldr x5, [x2, x4, lsl #3]", "add x4, x4, x5", "add x6, x6, x1", "cmp x4, x7"]),
+             ("aarch64", "v2", ["ldr x5, [x2, x4, lsl #3]", "ldr x1, [x1, #8]", "add x6, x6, x5", "subs x7, x7, #1"]),
+             ("aarch64", "a72", ["ldr q0, [x1, x2, lsl #4]", "ldr q1, [x3, x4]", "fadd v2.2d, v0.2d, v1.2d", "str q2, [x3, x4]", "add x2, x2, #1"]),
              # a second address register DERIVED from the store's base before the store, the reload goes through the derived register and the
              # base is re-assigned from it: whether the store->load edge exists must not depend on where the body is cut
              ("aarch64", "a64fx", ["add x3, x1, #8", "ldr d1, [x2], #8", "fmadd d3, d0, d2, d1", "str d3, [x1, #8]", "ldr d0, [x3]", "mov x1, x3", "cmp x1, x5", "b.ne .L4"]),
